@@ -167,6 +167,7 @@ func NewSession(st *memstore.Store, c *core.Case) *memstore.Session {
 	s.Shuffle = c.Shuffle
 	s.Trim = c.Trim
 	s.Delay = c.Delay
+	s.HonourCtx = strings.Contains(c.Note, "honourctx")
 	return s
 }
 
